@@ -23,6 +23,7 @@ import (
 type c14Signer struct {
 	Who  int `json:"who"`  // index into the set in force (mod its size); >= 100: foreign pool account 40+(who-100)%20
 	Kind int `json:"kind"` // 0 valid signature; 1 signature over another hash; 2 signed by a foreign key; 3 garbage bytes
+	By   int `json:"by,omitempty"` // 0: the signature in this slot is made by this slot's key; k>0: by the key listed in slot (k-1) mod len
 }
 
 type c14Blk struct {
@@ -57,7 +58,11 @@ func genC14(t *rapid.T) c14Case {
 		if rapid.IntRange(0, 5).Draw(t, "bad") == 0 {
 			kind = rapid.IntRange(1, 3).Draw(t, "kind")
 		}
-		return c14Signer{Who: who, Kind: kind}
+		by := 0
+		if rapid.IntRange(0, 3).Draw(t, "crossed") == 0 {
+			by = rapid.IntRange(1, 12).Draw(t, "by") // a (valid) signature of ANOTHER listed signer sits in this slot
+		}
+		return c14Signer{Who: who, Kind: kind, By: by}
 	})
 	genBlk := rapid.Custom(func(t *rapid.T) c14Blk {
 		b := c14Blk{Exact: -1, Path: rapid.SampledFrom([]string{"header", "submit", "addblock"}).Draw(t, "path")}
@@ -185,17 +190,24 @@ func runC14(ctx *ev.Ctx, c c14Case) {
 		hdr := b.Header
 		hash := hdr.Hash()
 		other := common.Uint256{0xaa, byte(bi)}
+		makerOf := make([]int, len(specs)) // makerOf[i]: index of the listed key under which signature i verifies, -1 if none
 		for i, sp := range specs {
 			var sig []byte
 			kind := 0
+			maker := i
 			if blk.Exact < 0 {
 				kind = blk.Signers[i].Kind
+				if by := blk.Signers[i].By; by > 0 {
+					maker = (by - 1) % len(specs)
+				}
 			}
+			makerOf[i] = -1
 			switch kind {
 			case 0:
-				sig, _ = signature.Sign(sp.acct, hash[:])
+				sig, _ = signature.Sign(specs[maker].acct, hash[:])
+				makerOf[i] = maker
 			case 1:
-				sig, _ = signature.Sign(sp.acct, other[:])
+				sig, _ = signature.Sign(specs[maker].acct, other[:])
 			case 2:
 				sig, _ = signature.Sign(world.Acct(63), hash[:])
 			default:
@@ -203,10 +215,6 @@ func runC14(ctx *ev.Ctx, c c14Case) {
 			}
 			hdr.Bookkeepers = append(hdr.Bookkeepers, sp.acct.PublicKey)
 			hdr.SigData = append(hdr.SigData, sig)
-		}
-		validAt := make([]bool, len(specs)) // validAt[i]: signature i verifies under key i
-		for i, sp := range specs {
-			validAt[i] = sp.valid
 		}
 		if blk.Reverse && len(hdr.SigData) > 1 {
 			for i, j := 0, len(hdr.SigData)-1; i < j; i, j = i+1, j-1 {
@@ -240,17 +248,21 @@ func runC14(ctx *ev.Ctx, c c14Case) {
 		}
 		validKeys := map[string]bool{} // distinct listed keys having a valid signature anywhere in SigData
 		for p := range hdr.SigData {
-			if i := src(p); validAt[i] {
-				validKeys[world.PubHex(specs[i].acct)] = true
+			if m := makerOf[src(p)]; m >= 0 {
+				validKeys[world.PubHex(specs[m].acct)] = true
 			}
 		}
 		leadingOK := len(hdr.SigData) >= need
 		if leadingOK {
 			used := map[string]bool{}
 			for p := 0; p < need; p++ {
-				i := src(p)
-				id := world.PubHex(specs[i].acct)
-				if !validAt[i] || used[id] {
+				m := makerOf[src(p)]
+				if m < 0 {
+					leadingOK = false
+					break
+				}
+				id := world.PubHex(specs[m].acct)
+				if used[id] {
 					leadingOK = false
 					break
 				}
